@@ -88,3 +88,12 @@ Theorem C17_handlers_are_the_regenerated_list : forall mc p,
         (gen_event_handlers (is_move mc) (m_drf mc) (m_dmd mc)).
 Proof. exact mirror_handlers_regen. Qed.
 Print Assumptions C17_handlers_are_the_regenerated_list.
+
+(* ---- T17: the sources this property rests on keep no state outside the objects the model has (no static locals
+   or mutable globals in C, no class-level / module-level containers, `global` rebinding or cache decorators in
+   Python): the list of such sites, regenerated from the sources on every run, is empty *)
+From Coq Require Import String List.
+From DRF Require Import Gen.StateSites Proofs.StateSitesProofs.
+Theorem C17_no_state_outside_the_modelled_objects : state_sites_events = @nil string /\ state_sites_listing = @nil string.
+Proof. repeat split; first [exact no_state_outside_objects_events | exact no_state_outside_objects_listing]. Qed.
+Print Assumptions C17_no_state_outside_the_modelled_objects.
